@@ -429,9 +429,11 @@ func (in *c39Inst) Events() []string {
 	if !fenced && !in.switched {
 		evs = append(evs, "fence")
 	}
-	nOut := 0
+	nOut, onlyFenceMarker := 0, false
 	if !in.switched {
-		nOut = len(in.outbox())
+		rows := in.outbox()
+		nOut = len(rows)
+		onlyFenceMarker = nOut == 1 && in.labelByIdx[rows[0].SourceIndex] == "fence"
 	}
 	if in.imported && !in.switched && nOut > 0 {
 		evs = append(evs, "deliver")
@@ -439,8 +441,8 @@ func (in *c39Inst) Events() []string {
 	if len(in.hist) > 0 {
 		evs = append(evs, "replay")
 	}
-	if fenced && in.imported && !in.switched && nOut == 0 {
-		evs = append(evs, "switch")
+	if fenced && in.imported && !in.switched && (nOut == 0 || onlyFenceMarker) {
+		evs = append(evs, "switch") // the switch delivers and acks a trailing fence marker itself (final drain)
 	}
 	evs = append(evs, "nw")
 	if in.switched && !in.cleaned {
@@ -759,6 +761,15 @@ func (in *c39Inst) evReplay(env *mc.Env) (string, error) {
 }
 
 func (in *c39Inst) evSwitch() (string, error) {
+	if rows := in.outbox(); len(rows) == 1 { // final drain: the trailing fence marker (default environment answers)
+		if obs, err := in.evDeliver(&mc.Env{}); err != nil {
+			return "switch: " + obs, err
+		}
+		if len(in.outbox()) != 0 {
+			in.fail("switch: fence marker still in the outbox after the final drain")
+			return "?", nil
+		}
+	}
 	srcRows, tgtRows := in.users(in.a.S), in.users(in.a.T)
 	in.smS.UpdateOwnedHashSlots([]uint16{in.hsS})
 	in.smS.UpdateOutgoingDeltaTargets(map[uint16]multiraft.SlotID{})
